@@ -2,10 +2,12 @@ package main
 
 import (
 	"github.com/superfly/litefs/consul"
+	"bytes"
 	"context"
 	"errors"
 	"fmt"
 	"io"
+	"net/http"
 	"os"
 	"path/filepath"
 	"sort"
@@ -322,6 +324,7 @@ type snapGate struct {
 
 type clusterNode struct {
 	bgHalt chan string // answer of a halt-lock request issued in the background
+	bgImp  chan string // answer of an import request (POST /import) issued in the background
 	pctx   context.Context
 	gate   *snapGate
 	hooked *litefs.DB
@@ -640,7 +643,7 @@ func (m *clusterImpl) Do(line string) string {
 		m.svc.allow = k
 		m.svc.mu.Unlock()
 		return "ok"
-	case "demote":
+	case "demote", "demote-nowait": // demote-nowait: an application connection holds a lock, so the demoted node's recovery cannot finish yet
 		if len(f) != 2 {
 			return "bad-op"
 		}
@@ -655,13 +658,13 @@ func (m *clusterImpl) Do(line string) string {
 		// databases and starts the next iteration of its lease loop: wait for that iteration
 		c0 := n.leaser.ticks.Load()
 		n.eng.store.Demote()
-		for i := 0; i < 3000 && (n.eng.store.IsPrimary() || n.leaser.ticks.Load() == c0); i++ {
+		for i := 0; i < 3000 && (n.eng.store.IsPrimary() || (n.leaser.ticks.Load() == c0 && f[0] == "demote")); i++ {
 			time.Sleep(time.Millisecond)
 		}
 		if n.eng.store.IsPrimary() {
 			return "still-primary"
 		}
-		if n.leaser.ticks.Load() == c0 {
+		if n.leaser.ticks.Load() == c0 && f[0] == "demote" {
 			return "no-recover"
 		}
 		return "ok"
@@ -743,6 +746,73 @@ func (m *clusterImpl) Do(line string) string {
 		}()
 		time.Sleep(40 * time.Millisecond) // the request reaches the primary and waits for the application's locks
 		return "started"
+	case "import-bg": // import-bg <k> <image>: POST /import on node k's HTTP server, issued in the background (it queues behind the locks an application connection holds)
+		if len(f) != 3 {
+			return "bad-op"
+		}
+		n, _ := m.node(f[1])
+		data, ok := bytesOf(f[2])
+		if n == nil || !n.up || !ok {
+			return "bad-op"
+		}
+		pos := func() string {
+			if db := n.eng.store.DB("db"); db != nil {
+				p := db.Pos()
+				return fmt.Sprintf("%d:%016x", uint64(p.TXID), uint64(p.PostApplyChecksum))
+			}
+			return "0:0000000000000000"
+		}
+		ch := make(chan string, 1)
+		n.bgImp = ch
+		url := n.leaser.url
+		go func() {
+			req, err := http.NewRequest("POST", url+"/import?name=db", bytes.NewReader(data))
+			if err != nil {
+				ch <- "refused"
+				return
+			}
+			hc := &http.Client{Timeout: 4 * time.Second}
+			resp, err := hc.Do(req)
+			if err != nil {
+				if os.Getenv("VERIF_LOG") != "" {
+					fmt.Fprintln(os.Stderr, "import-bg error:", err)
+				}
+				ch <- "refused"
+				return
+			}
+			_, _ = io.Copy(io.Discard, resp.Body)
+			_ = resp.Body.Close()
+			if resp.StatusCode == 200 {
+				ch <- "ok"
+			} else {
+				ch <- "refused"
+			}
+		}()
+		time.Sleep(60 * time.Millisecond) // the request reaches the node and waits for the application's locks
+		return "started pos=" + pos()
+	case "import-join": // import-join <k>: the answer to the background import, and the node's position after it
+		if len(f) != 2 {
+			return "bad-op"
+		}
+		n, _ := m.node(f[1])
+		if n == nil || n.bgImp == nil || !n.up {
+			return "bad-op"
+		}
+		ch := n.bgImp
+		n.bgImp = nil
+		var out string
+		select {
+		case out = <-ch:
+		case <-time.After(5 * time.Second):
+			return "hang"
+		}
+		time.Sleep(20 * time.Millisecond)
+		p := "0:0000000000000000"
+		if db := n.eng.store.DB("db"); db != nil {
+			pp := db.Pos()
+			p = fmt.Sprintf("%d:%016x", uint64(pp.TXID), uint64(pp.PostApplyChecksum))
+		}
+		return out + " pos=" + p
 	case "halt-join": // halt-join <k>: the answer to the background request
 		if len(f) != 2 {
 			return "bad-op"
